@@ -8,12 +8,12 @@
 (***************************************************************************)
 EXTENDS Sanitize, IOUtils
 Obs == JsonDeserialize(IOEnv.OBS_FILE)
-Units == Obs.units      \* [name, cfg, form, header ("-" | "cookie" | "set-cookie": the value is one cookie inside that header), redacted]
-Runs == Obs.runs        \* dead = sinks whose artifact is not well-formed / incomplete (not judged); [cfg, sanitize, dead, routes : <<[route, name, k (slot), present : [console, curl, junit, vcr, har]]>>]
+Units == Obs.units      \* shape = "-" or the shape of the URL userinfo the unit renders (route = its userinfo route then); [name, cfg, form, shape, route, header ("-" | "cookie" | "set-cookie": the value is one cookie inside that header), redacted]
+Runs == Obs.runs        \* fate = "answered" / "no-response" (the server dropped every request of the run); routes[k].shape = userinfo shape or "-"; dead = sinks whose artifact is not well-formed / incomplete (not judged); [cfg, sanitize, dead, routes : <<[route, name, k (slot), present : [console, curl, junit, vcr, har]]>>]
 Hists == Obs.hists      \* [steps : <<[kind, op, name]>>, outs : <<[step, form, redacted]>>] - one process, re-configured on the way
 VARIABLES what, i
 jvars == <<vars, what, i>>
-JInit == /\ kind = "judge" /\ nameIx = 0 /\ cfgKind = "-" /\ route = "-" /\ sink = "-" /\ sanitize = TRUE /\ sens = FALSE /\ omitted = FALSE /\ pos = "-" /\ sep = "-"
+JInit == /\ kind = "judge" /\ nameIx = 0 /\ cfgKind = "-" /\ route = "-" /\ sink = "-" /\ sanitize = TRUE /\ sens = FALSE /\ omitted = FALSE /\ pos = "-" /\ sep = "-" /\ shape = "-" /\ fate = "-"
          /\ \/ what = "unit" /\ i \in 1..Len(Units)
             \/ what = "run" /\ i \in 1..Len(Runs)
             \/ what = "hist" /\ i \in 1..Len(Hists)
@@ -21,14 +21,15 @@ JNext == UNCHANGED jvars
 JSpec == JInit /\ [][JNext]_jvars
 
 UnitVerdict == LET u == Units[i] IN
-               IF u.redacted = (IF u.header = "cookie" THEN SensCarrier("gen-cookie", u.name, Cfg(u.cfg))
+               IF u.redacted = (IF u.shape # "-" THEN u.shape \in UserinfoShapes /\ UserinfoRedacted(u.route, u.shape, Cfg(u.cfg))
+                                ELSE IF u.header = "cookie" THEN SensCarrier("gen-cookie", u.name, Cfg(u.cfg))
                                 ELSE IF u.header = "set-cookie" THEN SensCarrier("resp-set-cookie", u.name, Cfg(u.cfg))
                                 ELSE u.form = "curl-api-userinfo" \/ Sensitive(u.name, Cfg(u.cfg))) THEN {}
                ELSE {<<u.form, "-", IF u.redacted THEN "over-redacted" ELSE "leak">>}
 RunVerdict == LET r == Runs[i] IN
               UNION {LET x == r.routes[k] IN
-                     {<<x.route, s, IF Expected(x.route, s, x.name, r.sanitize, Cfg(r.cfg)) = "absent" THEN "leak" ELSE "missing", x.k>>
-                        : s \in {s \in Sinks \ {r.dead[d] : d \in 1..Len(r.dead)} : LET e == Expected(x.route, s, x.name, r.sanitize, Cfg(r.cfg)) IN
+                     {<<x.route, s, IF ExpectedF(x.route, s, x.name, r.sanitize, Cfg(r.cfg), r.fate) = "absent" THEN "leak" ELSE "missing", x.k>>
+                        : s \in {s \in Sinks \ {r.dead[d] : d \in 1..Len(r.dead)} : LET e == ExpectedF(x.route, s, x.name, r.sanitize, Cfg(r.cfg), r.fate) IN
                                                (e = "absent" /\ x.present[s]) \/ (e = "present" /\ ~x.present[s])}}
                      : k \in 1..Len(r.routes)}
 (* every output of a history must be what the configuration current at that call says - nothing remembered from earlier calls *)
